@@ -39,7 +39,7 @@ RULE = (
     "unreferenced member variants (Default-typed, untyped, Override-typed, orphan .rels, slide-like, directory entry); "
     "sliderename = reverse/rotate/gap/gap-reverse/all permutations (n<=3)/seeded injections into 1..2n+5; nocore; "
     "directory = extracted form. thorough: every location x {stream, path, directory} + all pairs (<= 40 locations) or "
-    "600 seeded pairs per deck; quick: stratified seeded sample (~45 singles + 8 pairs per deck). Non-trivial: the fault "
+    "1000 seeded pairs per deck (no corpus deck has <= 40); quick: stratified seeded sample (~45 singles + 8 pairs per deck). Non-trivial: the fault "
     "changes the reachable set, a relationship set, a content-type lookup path, the member set the loader must skip, "
     "or the physical reader. Distinct = (deck, faults, form). Non-packages: prefix classes of every/6 decks, synthetic "
     "garbage, structural removals, Word/Excel main types, each as stream/path(/directory)."
@@ -70,13 +70,15 @@ CT_FOREIGN = {
     "template": "application/vnd.openxmlformats-officedocument.presentationml.template.main+xml",  # observed only
 }
 UNKNOWN_CT = "application/x-unknown-verif"
-EXTRAS = {
-    "xml-default": ("ppt/unused/verifExtra9.xml", b"<extra/>"),
-    "no-ct": ("docProps/verif-extra.verifx", b"\x00extra"),
-    "override": ("customXml/verifExtra1.dat", b"\x01extra"),
-    "orphan-rels": ("ppt/_rels/verifGhost.xml.rels", None),
-    "slide-like": ("ppt/slides/slide99.xml", None),
-    "dir-entry": ("ppt/verifEmptyDir/", b""),
+GHOST_RELS = ('<?xml version="1.0" encoding="UTF-8" standalone="yes"?>\n<Relationships xmlns="%s"><Relationship Id="rId1" Type="%s/slideMaster" '
+              'Target="slideMasters/slideMaster1.xml"/></Relationships>' % (NS_PR, NS_R)).encode()
+EXTRAS = {  # variant -> (member, payload (None = copy of a slide), Override type or None)
+    "xml-default": ("ppt/unused/verifExtra9.xml", b"<extra/>", None),
+    "no-ct": ("docProps/verif-extra.verifx", b"\x00extra", None),
+    "override": ("customXml/verifExtra1.dat", b"\x01extra", UNKNOWN_CT),
+    "orphan-rels": ("ppt/_rels/verifGhost.xml.rels", GHOST_RELS, None),
+    "slide-like": ("ppt/slides/slide99.xml", None, CT_SLIDE),
+    "dir-entry": ("ppt/verifEmptyDir/", b"", None),
 }
 STRUCT = {"no-content-types": KeyError, "no-root-rels": KeyError, "no-office-document-rel": KeyError, "main-part-absent": KeyError,
           "main-type-word": ValueError, "main-type-excel": ValueError}
@@ -236,21 +238,14 @@ def apply_fault(m, f):
     if k == "unknownct":
         return set_override(m, f["part"], UNKNOWN_CT)
     if k == "extra":
-        name, blob = EXTRAS[f["variant"]]
+        name, blob, ct = EXTRAS[f["variant"]]
         if name in m:
             return False
-        if f["variant"] == "orphan-rels":
-            blob = ('<?xml version="1.0" encoding="UTF-8" standalone="yes"?>\n<Relationships xmlns="%s"><Relationship Id="rId1" Type="%s/slideMaster" '
-                    'Target="slideMasters/slideMaster1.xml"/></Relationships>' % (NS_PR, NS_R)).encode()
-        if f["variant"] == "slide-like":
+        if blob is None:
             donors = [n for n in m if n.startswith("ppt/slides/slide") and n.endswith(".xml")]
             blob = m[donors[0]] if donors else ('<p:sld xmlns:p="%s"><p:cSld><p:spTree/></p:cSld></p:sld>' % NS_P).encode()
         m[name] = blob
-        if f["variant"] == "override":
-            set_override(m, "/" + name, UNKNOWN_CT)
-        if f["variant"] == "slide-like":
-            set_override(m, "/" + name, CT_SLIDE)
-        return True
+        return set_override(m, "/" + name, ct) if ct else True
     if k == "nocore":
         root = _parse(m["_rels/.rels"])
         for el in root.iter("{%s}Relationship" % NS_PR):
@@ -800,7 +795,7 @@ def deck_cases(rel, tier):
         cases += [([f], form, nt) for f, nt in locs for form in ("stream", "path", "dir")]
         pairs = list(itertools.combinations(range(len(locs)), 2))
         if len(locs) > 40:
-            pairs = rnd.sample(pairs, min(len(pairs), 600))
+            pairs = rnd.sample(pairs, min(len(pairs), 1000))
     else:
         quota = {"dangling": 12, "norels": 6, "ctcase": 9, "unknownct": 5, "extra": 4, "sliderename": 4, "nocore": 1}
         for kind, q in quota.items():
@@ -820,8 +815,8 @@ def plan(tier, seed):
     for rel in decks:
         path = os.path.join(env.REPO, rel)
         nm = len(zipfile.ZipFile(path).namelist())
-        cost = (2.0 * nm + os.path.getsize(path) / 20000.0) * (8 * nm + 700 if tier == "thorough" else 50)  # ~ms: per-case cost x number of cases, both grow with the member count
-        k = max(1, min(24, int(round(cost / (60000.0 if tier == "thorough" else 3000.0)))))
+        cost = (2.0 * nm + os.path.getsize(path) / 20000.0) * (8 * nm + 1100 if tier == "thorough" else 50)  # ~ms: per-case cost x number of cases, both grow with the member count
+        k = max(1, min(24, int(round(cost / (90000.0 if tier == "thorough" else 3000.0)))))
         units += [{"kind": "deck", "deck": rel, "shard": j, "of": k, "cost": cost / k} for j in range(k)]
     nd = decks if tier == "thorough" else decks[seed % 6::6]
     units += [{"kind": "nonpkg", "decks": nd[i::8], "cost": 1500.0 * len(nd[i::8])} for i in range(8) if nd[i::8]]
